@@ -167,17 +167,24 @@ eval(struct expr *expr)
 				else
 					expr->u.constant.u = l->u.constant.u != 0;
 			} else if (l->type->prop & PROPINT && t->prop & PROPFLOAT) {
-				if (l->type->u.basic.issigned)
+				/* convert directly to the target type to avoid rounding twice */
+				if (t->size == 4) {
+					if (l->type->u.basic.issigned)
+						expr->u.constant.f = (float)l->u.constant.i;
+					else
+						expr->u.constant.f = (float)l->u.constant.u;
+				} else if (l->type->u.basic.issigned) {
 					expr->u.constant.f = l->u.constant.i;
-				else
+				} else {
 					expr->u.constant.f = l->u.constant.u;
+				}
 			} else if (l->type->prop & PROPFLOAT && t->prop & PROPINT) {
 				if (t->u.basic.issigned) {
 					if (l->u.constant.f < -0x1p63 || l->u.constant.f >= 0x1p63)
 						error(&tok.loc, "integer part of floating-point constant %g cannot be represented as signed integer", l->u.constant.f);
 					expr->u.constant.i = l->u.constant.f;
 				} else {
-					if (l->u.constant.f < 0.0 || l->u.constant.f >= 0x1p64)
+					if (l->u.constant.f <= -1.0 || l->u.constant.f >= 0x1p64)
 						error(&tok.loc, "integer part of floating-point constant %g cannot be represented as unsigned integer", l->u.constant.f);
 					expr->u.constant.u = l->u.constant.f;
 				}
